@@ -43,7 +43,7 @@ fn gen_tree(rng: &mut Rng, names: &[&str], max_entries: usize) -> BTreeMap<Strin
                 let node = if rng.chance(2, 5) {
                     Node::Dir
                 } else {
-                    let len = *rng.pick(&[0usize, 1, 300, 8191, 8192, 8193, 20000]);
+                    let len = *rng.pick(&[0usize, 1, 300, 8191, 8192, 8193, 20000, 70001]);
                     Node::File(rng.bytes(len, false))
                 };
                 t.insert(p.clone(), node);
